@@ -32,9 +32,12 @@ var work = filepath.Join(vlib.VerifDir, ".work", "c11")
 func tri(k int) *sdf.Triangle3 {
 	f := float64(k)
 	// the item number is the x coordinate; y lies far from the origin (beyond +-2^31 micro-units), every 9th
-	// triangle is a sliver with an edge of 1e-7
+	// triangle is a sliver with an edge of 1e-7, every 13th lies at y = 0
 	if k%9 == 4 {
 		return &sdf.Triangle3{{X: f, Y: 5000, Z: 0}, {X: f, Y: 5000 + 1e-7, Z: 0}, {X: f, Y: 5000, Z: 1}}
+	}
+	if k%13 == 0 { // every 13th triangle lies at y = 0 (item 0 has a corner exactly at the origin)
+		return &sdf.Triangle3{{X: f, Y: 0, Z: 0}, {X: f, Y: 1, Z: 0}, {X: f, Y: 0, Z: 1}}
 	}
 	return &sdf.Triangle3{{X: f, Y: 5000, Z: 0}, {X: f, Y: 5001, Z: 0}, {X: f, Y: 5000, Z: 1}}
 }
